@@ -22,6 +22,10 @@ class BoundExceeded(BaseException):
     """An environment-driven loop ran past its stated bound (path truncated, outside the claim)."""
 
 
+class Stop(BaseException):
+    """The harness ends this path early (after recording a failed obligation); the path counts as completed."""
+
+
 class HarnessError(BaseException):
     """The machinery cannot vouch for its own answer."""
 
@@ -850,6 +854,8 @@ class Explorer:
                         ctx.observed = []
                 if m is not None:
                     self.path_models.append((self.assignment(m), [(l, evaluate(m, v)) for l, v in ctx.observed]))
+            except Stop:
+                self.stats.paths += 1
             except Abort:
                 self.stats.infeasible += 1
             except BoundExceeded:
@@ -858,6 +864,21 @@ class Explorer:
                 CUR = None
         left, self.work = self.work, []
         return left
+
+
+def _guard(ctx, label, fn, a, kw, expect):
+    """Call the code under test; an exception that is not expected becomes a failed obligation `label`
+    (so that it is replayed and reported like any other counterexample) and ends the path."""
+    try:
+        return fn(*a, **kw)
+    except expect:
+        raise
+    except Exception as e:  # noqa: BLE001   (control-flow exceptions of the engine are BaseException)
+        import traceback as _tb
+
+        where = _tb.extract_tb(e.__traceback__)[-1]
+        ctx.prove(False, label, detail=f"{type(e).__name__}: {e} at {where.filename.rsplit('/', 1)[-1]}:{where.lineno}")
+        raise Stop() from None
 
 
 def _boolterm(c):
@@ -990,6 +1011,9 @@ class SymCtx:
 
     def observe(self, label, value):
         self.observed.append((label, value))
+
+    def guard(self, label, fn, *a, expect=(), **kw):
+        return _guard(self, label, fn, a, kw, expect)
 
     # term helpers (work in both modes) ----------------------------------------------
     @staticmethod
@@ -1140,6 +1164,9 @@ class ConcreteCtx:
 
     def observe(self, label, value):
         self.observed.append((label, value))
+
+    def guard(self, label, fn, *a, expect=(), **kw):
+        return _guard(self, label, fn, a, kw, expect)
 
     all = staticmethod(lambda items: builtins.all(items))
     any = staticmethod(lambda items: builtins.any(items))
